@@ -184,6 +184,30 @@ func IsInvalidTransactionError(err error, code string) bool {
 	return false
 }
 
+// errIdempotencyKeyReused: the idempotency key of the request already stored the outcome of a different request
+type errIdempotencyKeyReused struct {
+	ik string
+}
+
+func (e *errIdempotencyKeyReused) Error() string {
+	return fmt.Sprintf("idempotency key '%s' has already been used for a different request", e.ik)
+}
+
+func (e *errIdempotencyKeyReused) Is(err error) bool {
+	_, ok := err.(*errIdempotencyKeyReused)
+	return ok
+}
+
+func NewErrIdempotencyKeyReused(ik string) *errIdempotencyKeyReused {
+	return &errIdempotencyKeyReused{
+		ik: ik,
+	}
+}
+
+func IsErrIdempotencyKeyReused(err error) bool {
+	return errors.Is(err, &errIdempotencyKeyReused{})
+}
+
 type errMachine struct {
 	err error
 }
